@@ -145,8 +145,19 @@ class Inductor(Entity):
         self._update_rate_estimate(now)
         self._last_arrival_time = now
 
-        if self._can_forward(now):
-            return self._forward(event, now)
+        # Requests that are already waiting go first: a new arrival must not
+        # overtake the queue (e.g. when it lands on the pending poll instant but
+        # is delivered before the poll event). Capacity available now serves the
+        # head of the queue; the arrival joins the queue behind it.
+        result: list[Event] = []
+        if self._queue.is_empty():
+            if self._can_forward(now):
+                return self._forward(event, now)
+        elif self._can_forward(now):
+            queued_event = self._queue.pop()
+            if queued_event is None:
+                raise RuntimeError("Queue reported non-empty but pop() returned None")
+            result = self._forward(queued_event, now)
 
         # Queue the event
         if self._queue.push(event):
@@ -157,7 +168,8 @@ class Inductor(Entity):
                 self.name,
                 len(self._queue),
             )
-            return self._ensure_poll_scheduled(now)
+            result.extend(self._ensure_poll_scheduled(now))
+            return result
 
         # Queue full — drop
         self._dropped += 1
@@ -168,7 +180,7 @@ class Inductor(Entity):
             self.name,
             len(self._queue),
         )
-        return []
+        return result
 
     def _handle_poll(self, event: Event) -> list[Event]:
         now = event.time
